@@ -86,6 +86,11 @@ class T:
         return Shape("const", value=value)
 
     @staticmethod
+    def modconst(module, name):
+        """the value of a module-level constant of the repository (e.g. a table)"""
+        return Shape("modconst", module=module, name=name)
+
+    @staticmethod
     def oneof(*alts):
         """case split at input creation: the verification runs once per alternative"""
         return Shape("oneof", alts=list(alts))
@@ -208,6 +213,13 @@ class Maker:
             return st, NONE
         if k == "const":
             return st, e.lift(shape.value)
+        if k == "modconst":
+            mi = e.repo.module(shape.module)
+            v = e.module_const(shape.module, shape.name, mi.constants[shape.name])
+            from .expr import ConstContainer
+            if isinstance(v, ConstContainer):
+                return e.thaw(st, v.fz)
+            return st, v
         if k == "bytes":
             v, cs = e.sym_bytes(name, shape.lo, shape.hi)
             for c in cs:
@@ -299,6 +311,8 @@ class Maker:
             return None
         if k == "const":
             return _json_const(shape.value)
+        if k == "modconst":
+            return {"$modconst": [shape.module, shape.name]}
         if k == "bytes":
             ln = e.T.model_int(model, e.T.const(name + ".len"))
             ln = max(0, min(ln, 65536))
